@@ -177,3 +177,79 @@ Lemma alias_of_rejected_refuted :
   load_symtab_gen false true 0 4194304 syms = [mkSym 4112 8 84 [109;97;105;110]] /\
   load_symtab_gen true true 0 4194304 syms = [mkSym 4096 16 116 [104;101;108;112;101;114]; mkSym 4112 8 84 [109;97;105;110]].
 Proof. vm_compute. split; reflexivity. Qed.
+
+(* ------------------------------------------------------------------ update_symtab_using_dynsym *)
+(* the update only renames: every entry keeps address, size and type, and a new name is the name of
+   a defined dynamic symbol whose (value + offset) lies inside that entry *)
+Definition named_ok (offset : Z) (dyn : list esym) (s s' : sym) : Prop :=
+  s_addr s' = s_addr s /\ s_size s' = s_size s /\ s_type s' = s_type s /\
+  (s_name s' = s_name s \/
+   exists e, In e dyn /\ s_name s' = e_name e /\ cmp_addr ((e_value e + offset) mod W64) s = 0).
+
+Lemma named_ok_refl : forall offset dyn tab, Forall2 (named_ok offset dyn) tab tab.
+Proof. induction tab; constructor; auto. unfold named_ok. auto. Qed.
+
+Lemma Forall2_set_name : forall offset dyn e (He : In e dyn) tab cur i si,
+  Forall2 (named_ok offset dyn) tab cur -> nth_error cur i = Some si ->
+  cmp_addr ((e_value e + offset) mod W64) si = 0 ->
+  Forall2 (named_ok offset dyn) tab (set_name cur i (e_name e)).
+Proof.
+  intros offset dyn e He tab cur. revert tab. induction cur as [|c r IH]; intros tab i si HF Hn Hc.
+  - destruct i; discriminate.
+  - inversion HF as [|t0 c0 tr cr Hh Ht]; subst. destruct i as [|i]; cbn in Hn |- *.
+    + inversion Hn; subst si. constructor; auto.
+      destruct Hh as (A & B & C & _). unfold named_ok. cbn. repeat split; auto.
+      right. exists e. repeat split; auto. unfold cmp_addr in *. rewrite <- A, <- B. exact Hc.
+    + constructor; auto. eapply IH; eauto.
+Qed.
+
+Lemma update_one_ok : forall offset dyn e tab cur, In e dyn ->
+  Forall2 (named_ok offset dyn) tab cur -> Forall2 (named_ok offset dyn) tab (update_one offset cur e).
+Proof.
+  intros offset dyn e tab cur He HF. unfold update_one.
+  destruct ((e_shndx e =? 0) || negb (esym_typed e)); auto.
+  destruct (bsearch (cmp_addr ((e_value e + offset) mod W64)) cur) as [i|] eqn:Eb; auto.
+  destruct (bsearch_sound _ _ _ Eb) as (si & Hn & Hc). rewrite Hn.
+  destruct ((negb (nth 0 (s_name si) 0 =? 95) && (nth 0 (e_name e) 0 =? 95)) || (nth 1 (s_name si) 0 =? 90)); auto.
+  eapply Forall2_set_name; eauto.
+Qed.
+
+Lemma update_names_consistent : forall offset dyn tab,
+  Forall2 (named_ok offset dyn) tab (fold_left (update_one offset) dyn tab).
+Proof.
+  intros offset dyn tab.
+  assert (G : forall l cur, incl l dyn -> Forall2 (named_ok offset dyn) tab cur ->
+                            Forall2 (named_ok offset dyn) tab (fold_left (update_one offset) l cur)).
+  { induction l as [|e r IH]; intros cur Hi HF; [exact HF|]. cbn [fold_left].
+    apply IH; [intros x Hx; apply Hi; now right|]. apply update_one_ok; auto. apply Hi. now left. }
+  apply G; [apply incl_refl | apply named_ok_refl].
+Qed.
+
+(* in module-relative terms (SYMTAB_FL_ADJ_OFFSET, any first PT_LOAD address): a renamed entry
+   holds the module-relative address of the dynamic symbol it is named after *)
+Lemma update_names_relative : forall vaddr0 dyn s s',
+  (forall e, In e dyn -> 0 <= vaddr0 <= e_value e /\ e_value e < W64) ->
+  named_ok (elf_offset true 0 vaddr0) dyn s s' -> s_name s' <> s_name s ->
+  exists e, In e dyn /\ s_name s' = e_name e /\
+            s_addr s <= e_value e - vaddr0 /\ e_value e - vaddr0 < (s_addr s + s_size s) mod W64.
+Proof.
+  intros vaddr0 dyn s s' Hr (A & B & C & [D|(e & He & Hn & Hc)]) Hne; [congruence|].
+  exists e. repeat split; auto; specialize (Hr e He);
+    unfold cmp_addr, elf_offset in Hc; replace (0 - vaddr0) with (- vaddr0) in Hc by lia;
+    rewrite Zplus_mod_idemp_r, (Z.mod_small (e_value e + - vaddr0)) in Hc by lia;
+    pose proof (addrfind_cases (e_value e + - vaddr0) (s_addr s) (s_size s)); lia.
+Qed.
+
+(* as built: the offset update_symtab_using_dynsym really uses (generated flag) is the adjusted one *)
+Lemma update_offset_as_built : forall vaddr0,
+  (if dynsym_update_offset_adjusted then elf_offset true 0 vaddr0 else 0) = elf_offset true 0 vaddr0.
+Proof. intros. change dynsym_update_offset_adjusted with true. reflexivity. Qed.
+
+(* dropping the adjustment: the exported near function's ABSOLUTE address is looked up in the
+   module-relative table and a far function sitting at that offset takes its name *)
+Definition far_tab : symtab := [mkSym 4352 32 84 [110;101;97;114]; mkSym 4198400 12288 84 [102;97;114]].
+Definition far_dyn : list esym := [mkESym 4198656 32 2 1 14 [110;101;97;114]].
+Lemma update_unadjusted_refuted :
+  fold_left (update_one 0) far_dyn far_tab = [mkSym 4352 32 84 [110;101;97;114]; mkSym 4198400 12288 84 [110;101;97;114]] /\
+  fold_left (update_one (elf_offset true 0 4194304)) far_dyn far_tab = far_tab.
+Proof. vm_compute. split; reflexivity. Qed.
